@@ -263,6 +263,81 @@ class Rec:
         return ('?', rv.get('text', k))
 
 
+def field_aliases(fn):
+    """Locals that stand for a field of `self` in a method that takes self *by value*: `let mut row = self.row;` after which only the
+    local is used.  Returns {local: ('fld', ('p', 1), name)}.  Conditions: parameter 1 is not a reference; the local's first definition is
+    a plain copy / move of `self.<name>`, sits outside every loop and dominates every other definition and every use being in blocks it
+    dominates; the field is not read or written anywhere else in the body (so the local *is* the field from then on)."""
+    if fn.arg_count < 1 or fn.local_ty(1).startswith(('&', '*')):
+        return {}
+    out = {}
+    loops = fn.loops()
+
+    def field_of(rv):
+        if rv.get('k') != 'use':
+            return None
+        pl = rv['a'].get('c') or rv['a'].get('m')
+        if pl and pl['l'] == 1 and len(pl['pr']) == 1 and isinstance(pl['pr'][0], dict) and 'f' in pl['pr'][0]:
+            return pl['pr'][0].get('n', str(pl['pr'][0]['f']))
+        return None
+
+    def mentions_field(node, name):
+        if isinstance(node, dict):
+            if node.get('l') == 1 and node.get('pr') and isinstance(node['pr'][0], dict) and node['pr'][0].get('n', str(node['pr'][0].get('f'))) == name:
+                return 1
+            return sum(mentions_field(v, name) for v in node.values())
+        if isinstance(node, list):
+            return sum(mentions_field(v, name) for v in node)
+        return 0
+    for l, ds in fn.defs().items():
+        if len(ds) < 2 or l in fn.borrowed_mut or fn.partial.get(l) or 1 <= l <= fn.arg_count:
+            continue
+        first = [d for d in ds if d[1] != 'term' and field_of(d[2]) is not None and not any(d[0] in L['body'] for L in loops)]
+        if len(first) != 1:
+            continue
+        d0 = first[0]
+        name = field_of(d0[2])
+        if not all(d is d0 or fn.dominates(d0[0], d[0]) for d in ds):
+            continue
+        total = sum(mentions_field(blk['stmts'], name) + mentions_field(blk['term'], name) for blk in fn.blocks if not blk['cleanup'])
+        if total != 1:
+            continue
+        out[l] = ('fld', ('p', 1), name)
+    return out
+
+
+class AliasRec(Rec):
+    """Expression recovery in which a local that caches a field of a by-value `self` is spelled as that field."""
+
+    def __init__(self, fn, db=None, **kw):
+        super().__init__(fn, db, **kw)
+        self.alias = field_aliases(fn)
+
+    def local(self, l, depth=0):
+        if l in self.alias:
+            return self.alias[l]
+        return super().local(l, depth)
+
+    def at(self, block):
+        r = AliasRec.__new__(AliasRec)
+        Rec.__init__(r, self.fn, self.db, self.maxdepth, self.keep_names, self.ite)
+        r.alias = self.alias
+        r.ctx_block = block
+        return r
+
+    def alias_stores(self):
+        """Re-definitions of an aliased local, as stores to the field it stands for (same dict shape as `stores`)."""
+        out = []
+        for l, fe in self.alias.items():
+            ds = self.defs.get(l, [])
+            for bi, si, x in ds:
+                if si != 'term' and x.get('k') == 'use' and (x['a'].get('c') or x['a'].get('m') or {}).get('l') == 1:
+                    continue            # the initial copy out of self
+                rb = self.at(bi) if hasattr(self, 'at') else self
+                out.append({'block': bi, 'idx': si, 'target': fe, 'value': rb.call(x) if si == 'term' else rb.rvalue(x), 'span': (x.get('span') if isinstance(x, dict) else None), 'via': 'field-alias'})
+        return out
+
+
 def stores(fn, rec=None):
     """Memory writes through projected places: list of dict(block, target, value, stmt)."""
     rec = rec or Rec(fn)
